@@ -80,10 +80,13 @@ def saveOps (tgt tmp : P) (chunks : List Bytes) : List (FsOp P) :=
   .openTrunc tmp :: (chunks.map (.write tmp) ++ [.close tmp, .rename tmp tgt, .remove tmp])
 
 /-- a single injected error: operation number `idx` (0 = the `open`) of the save raises `OSError`; if it
-is a write, `part` is what it wrote before failing -/
+is a write, `part` is what it wrote before failing, and `after` are the writes the file object still issues
+when it is closed on the way out (Python's buffered writer keeps what it could not write and tries once more
+in `close()`; what exactly it writes then is its business: any list of chunks) -/
 structure Fault where
   idx : Nat
   part : Bytes
+  after : List Bytes
   deriving DecidableEq, Repr
 
 def okEv (o : FsOp P) : Ev P := ⟨o, false⟩
@@ -110,24 +113,30 @@ def tailRun (tgt tmp : P) : Option Nat → Run P
   | some 2 => ⟨[okEv (.close tmp), okEv (.rename tmp tgt), badEv (.remove tmp)], true, true⟩
   | _ => ⟨[okEv (.close tmp), okEv (.rename tmp tgt), okEv (.remove tmp)], true, false⟩
 
-/-- the `f.write` calls of `json.dump` and the final newline; a failing write leaves the `with` block
-(close) and then the `finally` (remove) -/
-def writesRun (tgt tmp : P) (part : Bytes) : List Bytes → Option Nat → Run P
+/-- the events of a write that failed and what follows it: the `with` block is left (the file object may write
+again what it still holds, then closes), then the `finally` (remove) -/
+def failedWrite (tmp : P) (part : Bytes) (after : List Bytes) : List (Ev P) :=
+  badEv (.write tmp part) :: (after.map (fun c => okEv (.write tmp c)) ++ [okEv (.close tmp), okEv (.remove tmp)])
+
+/-- the writes by which the text of `json.dump` and the final newline reach the file descriptor (inside the `with`
+block or when `__exit__` flushes: both come before the `close` of the descriptor); a failing write leaves the
+`with` block -/
+def writesRun (tgt tmp : P) (part : Bytes) (after : List Bytes) : List Bytes → Option Nat → Run P
   | [], k => tailRun tgt tmp k
   | c :: cs, k =>
     match k with
-    | some 0 => ⟨[badEv (.write tmp part), okEv (.close tmp), okEv (.remove tmp)], false, true⟩
-    | _ => (writesRun tgt tmp part cs (tick k)).cons (okEv (.write tmp c))
+    | some 0 => ⟨failedWrite tmp part after, false, true⟩
+    | _ => (writesRun tgt tmp part after cs (tick k)).cons (okEv (.write tmp c))
 
 /-- one call of the writing part of `__save_params` under an optional fault; a failing `open` goes
 straight to the `finally` -/
 def saveRun (tgt tmp : P) (chunks : List Bytes) (fault : Option Fault) : Run P :=
   match fault with
-  | none => (writesRun tgt tmp [] chunks none).cons (okEv (.openTrunc tmp))
+  | none => (writesRun tgt tmp [] [] chunks none).cons (okEv (.openTrunc tmp))
   | some f =>
     match f.idx with
     | 0 => ⟨[badEv (.openTrunc tmp), okEv (.remove tmp)], false, true⟩
-    | j + 1 => (writesRun tgt tmp f.part chunks (some j)).cons (okEv (.openTrunc tmp))
+    | j + 1 => (writesRun tgt tmp f.part f.after chunks (some j)).cons (okEv (.openTrunc tmp))
 
 end fs
 
